@@ -47,6 +47,12 @@ def requests(tier):
                 for per_channel in ((False, True) if dt != "uint8" else (False,)):
                     reqs.append(dict(kind="fc", as_conv=True, depth=depth, blk=16, slices=slice_lists(depth)[0], acc=acc, dt=dt, per_channel=per_channel, wzp=3 if dt == "uint8" else 0,
                                      k=(1, 1), ic=24, dil=(1, 1), wseed=0, bseed=0))
+    # hardware dilation that differs between the axes, with kernels longer than one sub-kernel (4 taps at dilation 2) in either axis
+    for kind in ("conv", "depthwise"):
+        for dil in ((2, 1), (1, 2), (2, 2)):
+            for k in ((5, 5), (1, 7), (6, 2), (2, 6)):
+                for acc in ACCS:
+                    reqs.append(dict(kind=kind, depth=17, blk=16, slices=slice_lists(17)[0], acc=acc, dt="int8", per_channel=False, wzp=0, k=k, ic=8, dil=dil, wseed=0, bseed=0))
     # rounding ties: every channel's multiplier is exactly k + 0.5 before rounding (int8/int16: the double-product derivation)
     for kind in ("conv", "depthwise"):
         for acc in ACCS:
